@@ -2180,6 +2180,17 @@ func (b transportResponseBody) Read(p []byte) (n int, err error) {
 	n, err = b.cs.bufPipe.Read(p)
 	if cs.bytesRemain != -1 {
 		if int64(n) > cs.bytesRemain {
+			// The bytes have left the pipe: return their connection-level
+			// flow control even though (some of) them are not handed to the caller.
+			cc.mu.Lock()
+			connAdd := cc.inflow.add(n)
+			cc.mu.Unlock()
+			if connAdd != 0 {
+				cc.wmu.Lock()
+				cc.fr.WriteWindowUpdate(0, mustUint31(connAdd))
+				cc.bw.Flush()
+				cc.wmu.Unlock()
+			}
 			n = int(cs.bytesRemain)
 			if err == nil {
 				err = errors.New("net/http: server replied with more than declared Content-Length; truncated")
